@@ -33,8 +33,10 @@ class ContractUnit(Unit):
         self.contract = contract
         self.name = contract.target
 
+    only = None      # index of the single variant to run (set by the parallel driver)
+
     def run(self, index, tier, seed):
-        return verify_unit(index, self.contract)
+        return verify_unit(index, self.contract, only=self.only)
 
 
 class LemmaUnit(Unit):
